@@ -6,6 +6,7 @@ import (
 	"path/filepath"
 	"strings"
 	"sync"
+	"sync/atomic"
 
 	"go.lsp.dev/protocol"
 	"go.lsp.dev/uri"
@@ -35,6 +36,7 @@ type Server struct {
 	supportsConfiguration bool
 	payeeTemplatesCache   sync.Map // map[protocol.DocumentURI]map[string][]analyzer.PostingTemplate
 	publishMu             sync.Mutex
+	filesGen              atomic.Int64 // grows whenever a file is known to have changed on disk (didSave)
 }
 
 func NewServer() *Server {
@@ -267,19 +269,11 @@ func (s *Server) DidSave(ctx context.Context, params *protocol.DidSaveTextDocume
 		// a saved file must be read again by whoever includes it.
 		s.loader.InvalidateFile(path)
 		// ... and the include trees of the open documents were resolved from what
-		// the file held before.
-		s.dropResolvedTrees()
+		// the file held before: they belong to an older generation of the files, and
+		// so does any tree that a background analysis is resolving right now.
+		s.filesGen.Add(1)
 	}
 	return nil
-}
-
-// dropResolvedTrees forgets the include trees kept for the open documents; GetResolved
-// resolves them again on demand.
-func (s *Server) dropResolvedTrees() {
-	s.resolved.Range(func(key, _ any) bool {
-		s.resolved.Delete(key)
-		return true
-	})
 }
 
 func (s *Server) publishDiagnostics(ctx context.Context, docURI protocol.DocumentURI, content string) {
@@ -302,10 +296,11 @@ func (s *Server) publishDiagnostics(ctx context.Context, docURI protocol.Documen
 	if path == "" {
 		return
 	}
+	gen := s.filesGen.Load()
 	resolved, loadErrors := s.loader.LoadFromContent(path, content)
 	// Analyses finish in any order: an older one must not replace the tree of a newer text.
 	if current, ok := s.GetDocument(docURI); !ok || current == content {
-		s.resolved.Store(docURI, resolvedTree{content: content, journal: resolved})
+		s.resolved.Store(docURI, resolvedTree{content: content, journal: resolved, gen: gen})
 	}
 	verifhook.Point("pd.loaded", string(docURI))
 
@@ -556,6 +551,7 @@ func uriToPath(docURI protocol.DocumentURI) string {
 type resolvedTree struct {
 	content string
 	journal *include.ResolvedJournal
+	gen     int64 // generation of the files on disk (see filesGen) the tree was read in
 }
 
 // GetResolved returns the include tree of an open document. The tree is computed in
@@ -570,7 +566,8 @@ func (s *Server) GetResolved(docURI protocol.DocumentURI) *include.ResolvedJourn
 		tree, known = r.(resolvedTree)
 	}
 	current, open := s.GetDocument(docURI)
-	if !open || (known && current == tree.content) {
+	gen := s.filesGen.Load()
+	if !open || (known && current == tree.content && tree.gen == gen) {
 		return tree.journal
 	}
 	path := uriToPath(docURI)
@@ -578,7 +575,7 @@ func (s *Server) GetResolved(docURI protocol.DocumentURI) *include.ResolvedJourn
 		return tree.journal
 	}
 	resolved, _ := s.loader.LoadFromContent(path, current)
-	s.resolved.Store(docURI, resolvedTree{content: current, journal: resolved})
+	s.resolved.Store(docURI, resolvedTree{content: current, journal: resolved, gen: gen})
 	return resolved
 }
 
